@@ -71,6 +71,13 @@ class electricity_heat_production(Contract):
                   ReinjTemp=NdOf("real"), T_chp_bottom=Real, enduse_efficiency_factor=Real, chp_fraction=Real)
     result = None
     may_raise = True
+    raises_at_call = (RuntimeError,)
+
+    def result_at_call(self, env):
+        e = env["enduse_option"].int_value
+        produced = NdOf("real")
+        towards = Real if e in (41, 42) else NdOf("real")
+        return (NdOf("real"), NdOf("real"), produced, towards)
 
     def configs(self):
         from geophires_x.OptionList import EndUseOptions
@@ -88,6 +95,12 @@ class electricity_heat_production(Contract):
         out = {"heat_extracted_is_flow_times_cp_times_temperature_drop": And(
             Len(extracted) == n, ForAll(0, n, lambda i: extracted[i] == flow * (s.ProducedTemperature[i] - s.Tinj) / 1E6))}
         eta = s.enduse_efficiency_factor
+        lens = [Len(elec) == n]
+        if e not in (1, 2):
+            lens.append(Len(produced) == n)
+        if e not in (2, 41, 42):
+            lens.append(Len(towards) == n)
+        out["lengths"] = And(*lens)
         if e == 1:
             out["all_extracted_heat_goes_to_electricity"] = ForAll(0, n, lambda i: towards[i] == extracted[i])
             out["no_direct_use_heat"] = Len(produced) == 0
@@ -135,7 +148,7 @@ class annual_electricity_pumping_power(Contract):
     params = dict(self=Const(None), plant_lifetime=Int, enduse_option=Const(None), HeatExtracted=NdOf("real"),
                   time_steps_per_year=Int, utilization_factor=Real, PumpingPower=NdOf("real"),
                   ElectricityProduced=NdOf("real"), NetElectricityProduced=NdOf("real"), HeatProduced=NdOf("real"))
-    result = None
+    result = (NdOf("real"), NdOf("real"), NdOf("real"), NdOf("real"), NdOf("real"))
 
     def configs(self):
         from geophires_x.OptionList import EndUseOptions
@@ -316,3 +329,132 @@ class AbsorptionChillerCalculate(_DirectUsePlant):
         out["annual_cooling"] = ForAll(0, L, lambda y: sp.cooling_kWh_Produced.value[y]
                                        == year_integral(sp.cooling_produced.value, y, tpy, uf))
         return out
+
+
+# ------------------------------------------------------------------ power plants (ORC / flash): heap based
+@contract
+class power_plant_entering_temperature(Contract):
+    key = "geophires_x/SurfacePlant.py::SurfacePlant.power_plant_entering_temperature"
+    params = dict(self=Const(None), enduse_option=Const(None), timevector=NdOf("real"), T_chp_bottom=Real,
+                  ProducedTemperature=NdOf("real"))
+    result = NdOf("real")
+
+    def ensures(self, s, r):
+        e = s.enduse_option.val.int_value
+        n = Len(s.timevector) if e in (41, 42) else Len(s.ProducedTemperature)
+        return {"length": Len(r) == n}
+
+
+@contract
+class availability_water(Contract):
+    key = "geophires_x/SurfacePlant.py::SurfacePlant.availability_water"
+    params = dict(self=Const(None), T0=Real, T1=NdOf("real"), T2=Real)
+    result = NdOf("real")
+
+    def ensures(self, s, r):
+        return {"length": Len(r) == Len(s.T1)}
+
+
+@contract
+class reinjection_temperature(Contract):
+    key = "geophires_x/SurfacePlant.py::SurfacePlant.reinjection_temperature"
+    params = dict(self=Const(None), model=Const(None), ambient_temperature=Real, TenteringPP=NdOf("real"), Tinj=Real,
+                  C01=Real, C11=Real, C21=Real, D01=Real, D11=Real, D21=Real,
+                  C02=Real, C12=Real, C22=Real, D02=Real, D12=Real, D22=Real)
+    result = (Real, NdOf("real"), NdOf("real"))
+
+    def ensures(self, s, r):
+        tinj, reinj, etau = r
+        return {"lengths": And(Len(reinj) == Len(s.TenteringPP), Len(etau) == Len(s.TenteringPP)),
+                "injection_temperature_only_lowered": tinj <= s.Tinj}
+
+
+class _PowerPlant(Contract):
+    params = dict(self=ObjAt("model.surfaceplant"), model=ObjAt("model"))
+    result = None
+    may_raise = True
+    plant_int = 1
+    inline_callees = ("geophires_x/SurfacePlant.py::SurfacePlant._calculate_derived_outputs",)
+    property_ids = ("C02",)
+
+    def configs(self):
+        from contracts.common import enum_by_int
+        from geophires_x.OptionList import EndUseOptions
+        return [(f"enduse={e}", {"_enduse": enum_by_int(EndUseOptions, e)}) for e in (1, 31, 32, 41, 42, 51, 52)]
+
+    def snapshot(self, cfg):
+        return model_after_reading(cfg["_enduse"].int_value, self.plant_int)
+
+    def heap(self, cfg):
+        nd = NdOf("real")
+        return {"model.wellbores.ProducedTemperature.value": nd, "model.wellbores.PumpingPower.value": nd,
+                "model.reserv.timevector.value": nd, "model.surfaceplant.enduse_option.value": cfg["_enduse"],
+                "model.surfaceplant.plant_lifetime.value": Int, "model.economics.timestepsperyear.value": Int}
+
+    def requires(self, s):
+        sp, wb = s.self, s.model.wellbores
+        N = Len(wb.ProducedTemperature.value)
+        L, tpy = sp.plant_lifetime.value, s.model.economics.timestepsperyear.value
+        return {"lifetime": L >= 1, "steps": tpy >= 1,
+                "same_length": And(Len(wb.PumpingPower.value) == N, Len(s.model.reserv.timevector.value) == N),
+                "every_year_has_two_points": (L - 1) * tpy <= N - 2}
+
+    def lemmas(self):
+        return annual_electricity_pumping_power.lemmas(self)
+
+    def ensures(self, s, r):
+        sp, wb = s.self, s.model.wellbores
+        N = Len(wb.ProducedTemperature.value)
+        L, tpy, uf = sp.plant_lifetime.value, s.model.economics.timestepsperyear.value, sp.utilization_factor.value
+        flow = wb.nprod.value * wb.prodwellflowrate.value * s.model.reserv.cpwater.value
+        yi = lambda series: (lambda y: year_integral(series, y, tpy, uf))
+        e = sp.enduse_option.value.val.int_value
+        out = {
+            "net_electricity_is_gross_minus_pumping_power": And(
+                Len(sp.NetElectricityProduced.value) == N,
+                ForAll(0, N, lambda i: sp.NetElectricityProduced.value[i]
+                       == sp.ElectricityProduced.value[i] - wb.PumpingPower.value[i])),
+            # the injection temperature used is the one the model finally holds (and reports)
+            "heat_extracted_uses_the_reported_injection_temperature": And(
+                Len(sp.HeatExtracted.value) == N,
+                ForAll(0, N, lambda i: sp.HeatExtracted.value[i]
+                       == flow * (wb.ProducedTemperature.value[i] - wb.Tinj.value) / 1E6)),
+            "annual_heat_extracted": ForAll(0, L, lambda y: sp.HeatkWhExtracted.value[y] == yi(sp.HeatExtracted.value)(y)),
+            "annual_pumping_electricity": ForAll(0, L, lambda y: sp.PumpingkWh.value[y] == yi(wb.PumpingPower.value)(y)),
+            "annual_gross_electricity": ForAll(0, L, lambda y: sp.TotalkWhProduced.value[y]
+                                               == yi(sp.ElectricityProduced.value)(y)),
+            "annual_net_electricity_integrates_net_power": ForAll(
+                0, L, lambda y: sp.NetkWhProduced.value[y] == yi(sp.NetElectricityProduced.value)(y)),
+            "remaining_heat_is_initial_minus_cumulative_extracted": ForAll(
+                0, L, lambda y: sp.RemainingReservoirHeatContent.value[y]
+                == s.model.reserv.InitialReservoirHeatContent.value
+                - Sum(0, y + 1, lambda k: sp.HeatkWhExtracted.value[k]) * 3600 * 1E3 / 1E15),
+        }
+        if e != 1:
+            out["annual_heat_produced"] = ForAll(0, L, lambda y: sp.HeatkWhProduced.value[y]
+                                                 == yi(sp.HeatProduced.value)(y))
+        return out
+
+
+@contract
+class SubcriticalOrcCalculate(_PowerPlant):
+    key = "geophires_x/SurfacePlantSubcriticalORC.py::SurfacePlantSubcriticalOrc.Calculate"
+    plant_int = 1
+
+
+@contract
+class SupercriticalOrcCalculate(_PowerPlant):
+    key = "geophires_x/SurfacePlantSupercriticalORC.py::SurfacePlantSupercriticalOrc.Calculate"
+    plant_int = 2
+
+
+@contract
+class SingleFlashCalculate(_PowerPlant):
+    key = "geophires_x/SurfacePlantSingleFlash.py::SurfacePlantSingleFlash.Calculate"
+    plant_int = 3
+
+
+@contract
+class DoubleFlashCalculate(_PowerPlant):
+    key = "geophires_x/SurfacePlantDoubleFlash.py::SurfacePlantDoubleFlash.Calculate"
+    plant_int = 4
